@@ -187,11 +187,17 @@ def strategy(tier):
         "subclass": st.sampled_from([False, False, True]),
         "any_only": st.booleans(),
         "eqnodes": st.sampled_from([False, False, True]),
+        "ctor_a": st.sampled_from([None, None, 2]),
     })
 
 
 def run(case, ctx):
-    o = PS() if case.get("subclass") else P()
+    # with a constructor keyword the static handler of `a` runs - and reads two cached properties, materialising the
+    # default containers they depend on - while the object is still being initialised
+    kw = {"a": case["ctor_a"]} if case.get("ctor_a") else {}
+    if kw:
+        ctx.label("dependencies-materialised-during-construction")
+    o = PS(**kw) if case.get("subclass") else P(**kw)
     if case.get("subclass"):
         ctx.label("subclass-overriding-getters")
     # half of the pool has an explicitly assigned empty `children` list (an unmaterialised default is documented not to
